@@ -208,6 +208,12 @@ func c16Finalise(c *fw.Ctx, i int) {
 			long[k] = x
 		}
 	}
+	var carry, nextCarry []*c16Cons
+	defer func() {
+		for _, x := range append(carry, nextCarry...) {
+			x.close()
+		}
+	}()
 	for cyc := 0; cyc < K; cyc++ {
 		inc := cyc + 1
 		codec := c16Codecs[(i/5+cyc*3+r.Intn(2))%len(c16Codecs)]
@@ -423,6 +429,12 @@ func c16Finalise(c *fw.Ctx, i int) {
 					break
 				}
 			}
+			if x.kind == "ts" && way != "dispose" {
+				// an HTTP-TS player that joined mid-GOP stays for the next incarnation too: it may still be
+				// waiting for a key frame when the input changes
+				nextCarry = append(nextCarry, x)
+				continue
+			}
 			x.close()
 		}
 		// gap joiners: only this incarnation's data, and they do get it (the first deliverable frame
@@ -465,7 +477,7 @@ func c16Finalise(c *fw.Ctx, i int) {
 			// the long-lived HTTP-TS consumer: frames of this incarnation travel under a PMT that
 			// declares this incarnation's codecs (it joined before the first one, so a new PAT/PMT has
 			// to reach it whenever the tracks change)
-			for _, x := range long {
+			for _, x := range append(append([]*c16Cons(nil), long...), carry...) {
 				if x == nil || x.kind != "ts" {
 					continue
 				}
@@ -505,7 +517,7 @@ func c16Finalise(c *fw.Ctx, i int) {
 					}
 					c.Count("long_ts_pes_checked_against_pmt", 1)
 					if !ok || (pes.PID == 0x100 && v != wantV) || (pes.PID == 0x101 && a != wantA) {
-						c.Violate("leak/long-ts-pmt", fmt.Sprintf("the long-lived HTTP-TS consumer receives incarnation %d's frames (PID %#x) under a PMT declaring video %#x audio %#x; this incarnation is %v (%#x/%#x) | %s", inc, pes.PID, v, a, codec, wantV, wantA, desc), nil)
+						c.Violate("leak/long-ts-pmt", fmt.Sprintf("an HTTP-TS consumer attached since an earlier incarnation receives incarnation %d's frames (PID %#x) under a PMT declaring video %#x audio %#x; this incarnation is %v (%#x/%#x) | %s", inc, pes.PID, v, a, codec, wantV, wantA, desc), nil)
 						break
 					}
 				}
@@ -523,6 +535,10 @@ func c16Finalise(c *fw.Ctx, i int) {
 				}
 			}
 		}
+		for _, x := range carry {
+			x.close()
+		}
+		carry, nextCarry = nextCarry, nil
 		if way == "dispose" {
 			return
 		}
